@@ -230,8 +230,14 @@ func Run(c *core.Ctx) int {
 	}
 	var cases []Case
 	var rc Case
+	var examples []Case
+	var addons []string
 	if c.ReplayCase(&rc) {
 		cases = []Case{rc}
+		if rc.Dirty != nil {
+			dirtyReplay(c, rc)
+			return c.Finish("replay of one dirty input", nil)
+		}
 	} else {
 		var invoices []Case
 		for _, f := range exampleFiles(c.Repo) {
@@ -240,12 +246,12 @@ func Run(c *core.Ctx) int {
 				continue
 			}
 			cases = append(cases, cs)
+			examples = append(examples, cs)
 			if !cs.Envelope && bytes.Contains(cs.Data, []byte("bill/invoice")) {
 				invoices = append(invoices, cs)
 			}
 		}
 		// every example invoice x every registered addon
-		var addons []string
 		for _, a := range tax.AllAddonDefs() {
 			addons = append(addons, string(a.Key))
 		}
@@ -322,6 +328,9 @@ func Run(c *core.Ctx) int {
 		}
 	}
 
+	if os.Getenv("VERIF_C04_ONLY") == "dirty" { // exploration of the dirty-input family alone
+		cases = nil
+	}
 	var forWorker [][]byte
 	var workerWant []string
 	var crQueue []crPending
@@ -535,6 +544,10 @@ func Run(c *core.Ctx) int {
 	crCompare(c, crQueue)
 	// what a document calculates to does not depend on what was calculated before (history.go)
 	historyIndependence(c, pool, poolFirst)
+	// not-yet-normalised spellings of the examples (dirty.go)
+	if rc.Data == nil && rc.Doc == nil {
+		dirtyFamily(c, examples, addons)
+	}
 	// (4) another process, GOMAXPROCS=1
 	if len(forWorker) > 0 && !c.Search {
 		cmd := exec.Command(os.Args[0], "-root", c.Root, "-repo", c.Repo, "-model", c.ModelBin, "C04")
